@@ -54,7 +54,7 @@ func checkC07(w *World, r *Report) {
 	r.Explanation = "Decides on every path of the block hook's call tree (module BeginBlock → keeper hook → per-status executors → settlement steps): (BB-WIRE) the module's BeginBlock returns the keeper hook's error; (BB-EXHAUST) for each of the five real AuctionStatus constants, with every callee succeeding and every stored record well-formed, no failure exit or panic is reachable — a status the dispatch rejects would halt the chain as soon as such an auction exists; (BB-ERRPROP) for every call that can return an error, every exit reached after that call failed is itself a failure (the error is never dropped, overwritten by a later iteration, or replaced by nil); (DIV-GUARD) every Dec division has a divisor that is guarded non-zero or is a price field whose every writer is covered by a positivity check."
 	r.NotDecided = "general panic freedom and success in every reachable state (address parsing of stored strings, negative coin construction, bank failures, gas); whether a callee that reports an error should have failed."
 	r.Assumptions = append(r.Assumptions, "BB-EXHAUST assumes dependency calls succeed and that a stored auction's Type field agrees with its dynamic type (type assertions hold)")
-	r.Rule("BB-WIRE", "module BeginBlock calls the keeper block hook and returns its error", 1)
+	r.Rule("BB-WIRE", "the module's block hook reaches the keeper's per-auction processing (its error is a BB-ERRPROP site)", 1)
 	r.Rule("BB-EXHAUST", "no spontaneous failure for any AuctionStatus value", 5)
 	r.Rule("BB-ERRPROP", "errors in the block hook's call tree are propagated", 25)
 	r.Rule("DIV-GUARD", "divisors are non-zero", 2)
@@ -74,9 +74,9 @@ func checkC07(w *World, r *Report) {
 			}
 		}
 	}
-	r.Check(reads, "BB-WIRE", "BeginBlock:reaches-auction-walk", w.pos(bb.Pos()),
-		"the module's BeginBlock (appmodule.HasBeginBlocker) reaches code that iterates the Auction collection",
-		"BeginBlock no longer reaches the keeper's per-auction processing: auctions never open, settle or vest")
+	r.Check(reads, "BB-WIRE", "BlockHook:reaches-auction-walk", w.pos(bb.Pos()),
+		"the module's block hook ("+fnName(bb)+") reaches code that iterates the Auction collection",
+		"neither BeginBlock nor EndBlock reaches the keeper's per-auction processing: auctions never open, settle or vest, and no failure is ever reported")
 
 	// BB-EXHAUST
 	statuses := w.enumConsts("AuctionStatus")
